@@ -70,6 +70,16 @@ func (t *BaseTraveler) Copy() Traveler {
 		o.Path[i] = t.Path[i]
 	}
 	o.Current = t.Current
+	if t.Current != nil {
+		//the copy must not share the property map: steps like increment/set write into it
+		o.Current = &DataElement{
+			ID:    t.Current.ID,
+			Label: t.Current.Label,
+			From:  t.Current.From, To: t.Current.To,
+			Data:   copy.DeepCopy(t.Current.Data).(map[string]interface{}),
+			Loaded: t.Current.Loaded,
+		}
+	}
 	return &o
 }
 
